@@ -139,7 +139,13 @@ pub fn gen_multi(rng: &mut Rng) -> MultiWorld {
   for i in 0..n_pkgs {
     for j in i + 1..n_pkgs {
       if rng.chance(2, 3) {
-        add_link(rng, &mut mw, i, j);
+        // either direction (never both: no dependency cycles between packages); the package that is linked
+        // to may sort before or after the one that links to it
+        if rng.coin() {
+          add_link(rng, &mut mw, i, j);
+        } else {
+          add_link(rng, &mut mw, j, i);
+        }
       }
     }
   }
@@ -245,16 +251,30 @@ pub fn apply_edit(rng: &mut Rng, mw: &mut MultiWorld) -> Edit {
         let to = rng.range(from + 1, mw.pkgs.len() - 1);
         match rng.below(3) {
           0 => {
-            add_link(rng, mw, from, to);
+            // keep the direction an existing link between the two has, else pick one
+            let links = |mw: &MultiWorld, a: usize, b: usize| {
+              let needle = format!("jsr:{}@", mw.pkgs[b].name);
+              mw.pkgs[a].extra.values().flatten().any(|l| l.contains(&needle))
+            };
+            let (a, b) = if links(mw, to, from) {
+              (to, from)
+            } else if links(mw, from, to) || rng.coin() {
+              (from, to)
+            } else {
+              (to, from)
+            };
+            add_link(rng, mw, a, b);
             return Edit::AddLink;
           }
           1 => {
-            mw.pkgs[from].extra.clear();
+            let holder = if mw.pkgs[from].extra.is_empty() { to } else { from };
+            mw.pkgs[holder].extra.clear();
             return Edit::RemoveLink;
           }
           _ => {
             // the dependency leaves the public API but stays in the graph
-            for lines in mw.pkgs[from].extra.values_mut() {
+            let holder = if mw.pkgs[from].extra.is_empty() { to } else { from };
+            for lines in mw.pkgs[holder].extra.values_mut() {
               for l in lines.iter_mut() {
                 if let Some(a) = l.find("\"jsr:")
                   && let Some(b) = l[a + 1..].find('"')
